@@ -185,6 +185,20 @@ def run_(ctx):
         msgs = ctx.tlc("http", "MessageGen", core.cfg_text(
             constants={"Kind": '"%s"' % kind, "MaxPipe": 1, "Bodies": {"none", "cl", "ch2x", "ch2t"} | ({"close"} if kind == "resp" else set()),
                        "Restrict": True}, constraints=["Emit"]), workers=1).tagged_json("MSG")
+        # the well formed messages of the grammar themselves (chunk extensions, trailers, bare LF, ...): class valid / valid10
+        whole = ctx.tlc("http", "MessageGen", core.cfg_text(
+            constants={"Kind": '"%s"' % kind, "MaxPipe": 1, "Bodies": {"none", "cl0", "cl", "ch1", "ch2x", "ch2t", "ch0"}, "Restrict": False},
+            constraints=["Emit"]), workers=1).tagged_json("MSG")
+        if len(whole) < 100:
+            raise core.MachineryError("message dump too small: %d" % len(whole))
+        for pipe in (whole[::4] if ctx.quick else whole):
+            m = pipe[0]
+            data = "".join(m["tokens"]).encode("latin-1")
+            if kind == "req":
+                # (valid10: a non persistent request; the bare server closes those without an answer, which the class allows)
+                rv["valid10" if m["m"]["ver"] == "1.0" or m["m"]["conn"] == "close" else "valid"].append(data)
+            elif not m["expect"]["untilclose"]:      # (a body that runs until the peer closes is still pending here)
+                globals().setdefault("_RV", []).append(data)
         picked = rng.sample(msgs, 12 if ctx.quick else len(msgs))
         muts = []
         for pipe in picked:
@@ -214,6 +228,7 @@ def run_(ctx):
     cv["truncated"] = truncations(cv["valid"][0])
     cv["random"] = rv["random"][: (40 if ctx.quick else 6000)]
     cv["mutated"] = globals()["_RM"]["rmutated"]
+    cv["valid"] = cv["valid"] + globals().get("_RV", [])
     for cls, variants in cv.items():
         for data in variants:
             for bytewise in ((False, True) if len(data) < 400 else (False,)):
